@@ -62,7 +62,7 @@ def strict_msgs(an):
 
 def eval_grid(case, rng):
     mx = suites.matrix()
-    v, code, name, p = mx[rng.randrange(len(mx))]
+    v, code, name, p = suites.pick(rng)
     n, k, d = case["n"], case["k"], case["d"]
     spec, _ = tlssynth.random_spec(rng, v, code, nmax=0)
     spec.app = [(d, rng.randbytes(n))]
